@@ -1,7 +1,7 @@
 (* Proofs/NoPanicUtf8.v -- facts about valid UTF-8 byte strings used by the no-panic proofs:
    a valid string is a concatenation of well-formed encoded chars; char boundaries are exactly
    the starts of those chars; at a boundary [decode1] succeeds and lands on the next boundary. *)
-From Coq Require Import List Arith NArith Bool Lia ZifyBool ZifyN ZifyNat.
+From Coq Require Import List Arith NArith ZArith Bool Lia ZifyBool ZifyN ZifyNat.
 Import ListNotations.
 From RX.Model Require Import Base.
 Open Scope N_scope.
@@ -77,6 +77,15 @@ Proof.
   rewrite E1, E2, E3, E4, E5, C1, C2, C3. repeat split; auto.
 Qed.
 
+Lemma bytes_eqb_eq : forall x y, bytes_eqb x y = true -> x = y.
+Proof.
+  induction x as [|a x IH]; intros [|c y] H; cbn in H; try discriminate; auto.
+  apply andb_true_iff in H as [H1 H2]. f_equal; [lia|auto].
+Qed.
+
+Lemma bytes_eqb_refl : forall x, bytes_eqb x x = true.
+Proof. induction x; cbn; auto. rewrite IHx. assert (a =? a = true) as -> by lia. reflexivity. Qed.
+
 Lemma decode1_ascii x r : ascii x = true -> decode1 (x :: r) = Some (x, 1).
 Proof. unfold ascii, decode1. intros ->. reflexivity. Qed.
 
@@ -90,6 +99,7 @@ Inductive WF : bytes -> Prop :=
     is_cont x = false -> forallb is_cont cs = true -> (length cs <= 3)%nat ->
     n = N.of_nat (S (length cs)) ->
     (forall r', decode1 (x :: cs ++ r') = Some (c, n)) ->
+    is_scalar c = true -> encode_utf8 c = x :: cs ->
     WF r -> WF (x :: cs ++ r).
 
 Lemma valid_fuel_WF : forall f l, valid_utf8_fuel f l = true -> WF l.
@@ -97,11 +107,12 @@ Proof.
   induction f; intros l H; [discriminate|]. cbn [valid_utf8_fuel] in H.
   destruct l as [|y l']; [constructor|]. remember (y :: l') as l.
   destruct (decode1 l) as [[c n]|] eqn:D; [|discriminate].
-  apply andb_true_iff in H as [_ H].
+  apply andb_true_iff in H as [H0 H]. apply andb_true_iff in H0 as [Hsc Henc].
   destruct (decode1_struct _ _ _ D) as (x & cs & r & El & Hx & Hcs & Hlen & Hn & Hd).
-  rewrite El in *. rewrite Hn, Nat2N.id in H.
-  change (x :: cs ++ r) with ((x :: cs) ++ r) in H.
-  change (S (length cs)) with (length (x :: cs)) in H. rewrite skipn_len_app in H.
+  rewrite El in *. rewrite Hn, Nat2N.id in H, Henc.
+  change (x :: cs ++ r) with ((x :: cs) ++ r) in H, Henc.
+  change (S (length cs)) with (length (x :: cs)) in H, Henc.
+  rewrite skipn_len_app in H. rewrite firstn_len_app in Henc. apply bytes_eqb_eq in Henc.
   eapply WF_char; eauto.
 Qed.
 
@@ -181,9 +192,10 @@ Lemma WF_char_at l : WF l -> forall p, (p < length l)%nat -> bnd l p = true ->
     is_cont x = false /\
     (forall r', decode1 (x :: cs ++ r') = Some (c, n)) /\
     bnd l (p + S (length cs)) = true /\
-    (forall q, (p < q < p + S (length cs))%nat -> bnd l q = false).
+    (forall q, (p < q < p + S (length cs))%nat -> bnd l q = false) /\
+    is_scalar c = true /\ encode_utf8 c = x :: cs.
 Proof.
-  induction 1 as [|x cs r c n Hx Hcs Hlen Hn Hd Hr IH]; intros p Hp Hb.
+  induction 1 as [|x cs r c n Hx Hcs Hlen Hn Hd Hsc Henc Hr IH]; intros p Hp Hb.
   { cbn in Hp; lia. }
   destruct (Nat.eq_dec p 0) as [->|Hp0].
   { exists x, cs, r, c, n. cbn [skipn]. repeat split; auto.
@@ -196,7 +208,7 @@ Proof.
   remember (p - S (length cs))%nat as q eqn:Eq.
   assert (Ep : p = (S (length cs) + q)%nat) by lia. subst p.
   rewrite bnd_shift in Hb by auto.
-  destruct (IH q ltac:(lia) Hb) as (x' & cs' & r' & c' & n' & Hs & Hl' & Hn' & Hx' & Hd' & Hb' & Hin).
+  destruct (IH q ltac:(lia) Hb) as (x' & cs' & r' & c' & n' & Hs & Hl' & Hn' & Hx' & Hd' & Hb' & Hin & Hsc' & Henc').
   exists x', cs', r', c', n'. repeat split; auto.
   - change (x :: cs ++ r) with ((x :: cs) ++ r).
     change (S (length cs)) with (length (x :: cs)).
@@ -210,7 +222,7 @@ Qed.
 Lemma WF_floor l : WF l -> forall p, (p <= length l)%nat ->
   exists k, (k <= 3 /\ k <= p)%nat /\ bnd l (p - k) = true.
 Proof.
-  induction 1 as [|x cs r c n Hx Hcs Hlen Hn Hd Hr IH]; intros p Hp.
+  induction 1 as [|x cs r c n Hx Hcs Hlen Hn Hd Hsc Henc Hr IH]; intros p Hp.
   { exists 0%nat. cbn in Hp. assert (p = 0)%nat by lia. subst. split; [lia|reflexivity]. }
   destruct (Nat.le_gt_cases p (length cs)) as [Hle|Hgt].
   { exists p. split; [lia|]. rewrite Nat.sub_diag. reflexivity. }
@@ -225,14 +237,110 @@ Qed.
 (* the same on binary positions, for a fixed valid text                                     *)
 (* ---------------------------------------------------------------------------------------- *)
 
+
+(* ---------------------------------------------------------------------------------------- *)
+(* strict validity as an inductive predicate: concatenation of canonical encodings          *)
+(* ---------------------------------------------------------------------------------------- *)
+
+Ltac Zify.zify_post_hook ::= Z.div_mod_to_equations.
+
+Lemma decode1_encode c r : is_scalar c = true ->
+  decode1 (encode_utf8 c ++ r) = Some (c, blen (encode_utf8 c)).
+Proof.
+  unfold is_scalar, encode_utf8. intros Hs.
+  destruct (c <? 128) eqn:E1.
+  { cbn [app]. unfold decode1. rewrite E1. reflexivity. }
+  destruct (c <? 2048) eqn:E2.
+  { cbn [app]. unfold decode1.
+    assert ((192 + c / 64 <? 128) = false) as -> by lia.
+    assert ((192 + c / 64 <? 192) = false) as -> by lia.
+    assert ((192 + c / 64 <? 224) = true) as -> by lia.
+    assert (is_cont (128 + c mod 64) = true) as -> by (unfold is_cont; lia).
+    f_equal. f_equal. lia. }
+  destruct (c <? 65536) eqn:E3.
+  { cbn [app]. unfold decode1.
+    assert ((224 + c / 4096 <? 128) = false) as -> by lia.
+    assert ((224 + c / 4096 <? 192) = false) as -> by lia.
+    assert ((224 + c / 4096 <? 224) = false) as -> by lia.
+    assert ((224 + c / 4096 <? 240) = true) as -> by lia.
+    assert (is_cont (128 + (c / 64) mod 64) = true) as -> by (unfold is_cont; lia).
+    assert (is_cont (128 + c mod 64) = true) as -> by (unfold is_cont; lia).
+    cbn [andb]. f_equal. f_equal. lia. }
+  cbn [app]. unfold decode1.
+  assert ((240 + c / 262144 <? 128) = false) as -> by lia.
+  assert ((240 + c / 262144 <? 192) = false) as -> by lia.
+  assert ((240 + c / 262144 <? 224) = false) as -> by lia.
+  assert ((240 + c / 262144 <? 240) = false) as -> by lia.
+  assert ((240 + c / 262144 <? 248) = true) as -> by lia.
+  assert (is_cont (128 + (c / 4096) mod 64) = true) as -> by (unfold is_cont; lia).
+  assert (is_cont (128 + (c / 64) mod 64) = true) as -> by (unfold is_cont; lia).
+  assert (is_cont (128 + c mod 64) = true) as -> by (unfold is_cont; lia).
+  cbn [andb]. f_equal. f_equal. lia.
+Qed.
+
+(* the bytes of a char above U+007F are all >= 128 *)
+Lemma encode_high c : (c <? 128) = false -> forallb (fun x => 128 <=? x) (encode_utf8 c) = true.
+Proof.
+  intros E1. unfold encode_utf8. rewrite E1.
+  destruct (c <? 2048); [|destruct (c <? 65536)]; cbn [forallb]; repeat (apply andb_true_iff; split); auto; lia.
+Qed.
+
+Ltac Zify.zify_post_hook ::= idtac.
+
+Lemma encode_ascii c : (c <? 128) = true -> encode_utf8 c = [c].
+Proof. unfold encode_utf8. intros ->. reflexivity. Qed.
+
+Lemma encode_nonempty c : (1 <= length (encode_utf8 c))%nat.
+Proof.
+  unfold encode_utf8. destruct (c <? 128); [|destruct (c <? 2048); [|destruct (c <? 65536)]]; cbn; lia.
+Qed.
+
+Inductive Valid : bytes -> Prop :=
+| Valid_nil : Valid []
+| Valid_char : forall c r, is_scalar c = true -> Valid r -> Valid (encode_utf8 c ++ r).
+
+Lemma Valid_app a r : Valid a -> Valid r -> Valid (a ++ r).
+Proof. induction 1; cbn [app]; auto. rewrite <- app_assoc. constructor; auto. Qed.
+
+Lemma Valid_encode c : is_scalar c = true -> Valid (encode_utf8 c).
+Proof. intros H. rewrite <- (app_nil_r (encode_utf8 c)). constructor; auto. constructor. Qed.
+
+Lemma Valid_ascii x : ascii x = true -> Valid [x].
+Proof.
+  intros H. unfold ascii in H. rewrite <- (encode_ascii x H). apply Valid_encode.
+  unfold is_scalar. lia.
+Qed.
+
+Lemma valid_fuel_Valid : forall f l, valid_utf8_fuel f l = true -> Valid l.
+Proof.
+  induction f; intros l H; [discriminate|]. cbn [valid_utf8_fuel] in H.
+  destruct l as [|y l']; [constructor|]. remember (y :: l') as l.
+  destruct (decode1 l) as [[c n]|] eqn:D; [|discriminate].
+  apply andb_true_iff in H as [H0 H]. apply andb_true_iff in H0 as [Hsc Henc].
+  apply bytes_eqb_eq in Henc.
+  rewrite <- (firstn_skipn (N.to_nat n) l), <- Henc. constructor; auto.
+Qed.
+
+Lemma Valid_valid_fuel l : Valid l -> forall f, (length l < f)%nat -> valid_utf8_fuel f l = true.
+Proof.
+  induction 1 as [|c r Hsc Hr IH]; intros f Hf.
+  { destruct f; [lia|reflexivity]. }
+  destruct f as [|f]; [lia|]. cbn [valid_utf8_fuel].
+  pose proof (encode_nonempty c) as Hne. rewrite app_length in Hf.
+  destruct (encode_utf8 c ++ r) as [|y l'] eqn:El; [reflexivity|]. rewrite <- El.
+  rewrite decode1_encode by auto. rewrite Hsc. unfold blen. rewrite Nat2N.id.
+  rewrite firstn_len_app, skipn_len_app, bytes_eqb_refl. cbn [andb]. apply IH. lia.
+Qed.
+
+Lemma valid_iff_Valid l : valid_utf8_b l = true <-> Valid l.
+Proof.
+  split; [apply valid_fuel_Valid|]. intros H. apply Valid_valid_fuel; auto.
+Qed.
+
 Section Valid.
 Variable text : bytes.
-Hypothesis Hvalid : valid_utf8_b text = true.
 
 Definition Boundary (p : N) : Prop := is_boundary text p = true /\ p <= blen text.
-
-Lemma text_WF : WF text.
-Proof. apply valid_WF, Hvalid. Qed.
 
 Lemma is_boundary_le p : is_boundary text p = true -> p <= blen text.
 Proof. rewrite is_boundary_bnd. intros H. apply bnd_le in H. unfold blen. lia. Qed.
@@ -256,28 +364,50 @@ Proof.
   eapply bnd_noncont; eauto. eapply skipn_nth_error; eauto.
 Qed.
 
+Lemma sub_split a m e : a <= m -> m <= e -> sub text a e = sub text a m ++ sub text m e.
+Proof.
+  intros H1 H2. unfold sub.
+  replace (N.to_nat (e - a)) with (N.to_nat (m - a) + N.to_nat (e - m))%nat by lia.
+  rewrite <- (firstn_skipn (N.to_nat (m - a)) (firstn (N.to_nat (m - a) + N.to_nat (e - m)) (skipn (N.to_nat a) text))).
+  rewrite firstn_firstn. replace (Nat.min (N.to_nat (m - a)) (N.to_nat (m - a) + N.to_nat (e - m))) with (N.to_nat (m - a)) by lia.
+  f_equal. rewrite skipn_firstn_comm, skipn_skipn'. f_equal; [lia|f_equal; lia].
+Qed.
+
+Lemma sub_nil a : sub text a a = [].
+Proof. unfold sub. rewrite N.sub_diag. reflexivity. Qed.
+
+(* from here on the text is valid UTF-8 *)
+Hypothesis Hvalid : valid_utf8_b text = true.
+
+Lemma text_WF : WF text.
+Proof. apply valid_WF, Hvalid. Qed.
+
 Lemma char_at p : Boundary p -> p < blen text ->
   exists c n,
     decode1 (skipn (N.to_nat p) text) = Some (c, n) /\
     1 <= n <= 4 /\ p + n <= blen text /\ Boundary (p + n) /\
     (forall q, p < q < p + n -> is_boundary text q = false) /\
     (forall m, (N.to_nat n <= m)%nat ->
-       decode1 (firstn m (skipn (N.to_nat p) text)) = Some (c, n)).
+       decode1 (firstn m (skipn (N.to_nat p) text)) = Some (c, n)) /\
+    is_scalar c = true /\ firstn (N.to_nat n) (skipn (N.to_nat p) text) = encode_utf8 c.
 Proof.
   intros [Hb _] Hp. rewrite is_boundary_bnd in Hb.
   destruct (WF_char_at text text_WF (N.to_nat p) ltac:(unfold blen in Hp; lia) Hb)
-    as (x & cs & r & c & n & Hs & Hl & Hn & Hx & Hd & Hb' & Hin).
+    as (x & cs & r & c & n & Hs & Hl & Hn & Hx & Hd & Hb' & Hin & Hsc & Henc).
   exists c, n.
   assert (Hb'' : is_boundary text (p + n) = true).
   { rewrite is_boundary_bnd. replace (N.to_nat (p + n)) with (N.to_nat p + S (length cs))%nat by lia.
     exact Hb'. }
   split; [rewrite Hs; apply Hd|]. split; [lia|]. split; [apply is_boundary_le; auto|].
-  split; [apply Boundary_of; auto|]. split.
+  split; [apply Boundary_of; auto|]. split; [|split; [|split; [exact Hsc|]]].
   - intros q Hq. rewrite is_boundary_bnd. apply Hin. lia.
   - intros m Hm. rewrite Hs.
     change (x :: cs ++ r) with ((x :: cs) ++ r).
     rewrite firstn_app. rewrite firstn_all2 by (cbn [length]; lia).
     cbn [app]. apply Hd.
+  - rewrite Hs, Henc. change (x :: cs ++ r) with ((x :: cs) ++ r).
+    replace (N.to_nat n) with (length (x :: cs)) by (cbn [length]; lia).
+    apply firstn_len_app.
 Qed.
 
 (* an ASCII byte at a boundary is a whole char *)
@@ -319,5 +449,37 @@ Proof.
   rewrite is_boundary_bnd. replace (N.to_nat (p - N.of_nat k)) with (N.to_nat p - k)%nat by lia.
   exact Hb.
 Qed.
+
+
+(* two boundaries a < e: the char at a ends at or before e *)
+Lemma char_step a e : Boundary a -> Boundary e -> a < e ->
+  exists c n, decode1 (skipn (N.to_nat a) text) = Some (c, n) /\ 1 <= n /\ a + n <= e /\
+    Boundary (a + n) /\
+    (forall m, (N.to_nat n <= m)%nat -> decode1 (firstn m (skipn (N.to_nat a) text)) = Some (c, n)) /\
+    is_scalar c = true /\ firstn (N.to_nat n) (skipn (N.to_nat a) text) = encode_utf8 c.
+Proof.
+  intros Ha He Hae. pose proof (proj2 He) as Hel.
+  destruct (char_at a Ha ltac:(lia)) as (c & n & Hd & Hn & _ & Hb & Hin & Hf & Hsc & Henc).
+  exists c, n. repeat split; auto; try lia; try apply Hb.
+  destruct (N.le_gt_cases (a + n) e) as [|Hlt]; auto.
+  destruct He as [He1 _]. rewrite (Hin e ltac:(lia)) in He1. discriminate.
+Qed.
+
+(* a slice of the text between two boundaries is valid UTF-8 *)
+Lemma Valid_sub : forall k a e, Boundary a -> Boundary e -> a <= e ->
+  (N.to_nat (e - a) <= k)%nat -> Valid (sub text a e).
+Proof.
+  induction k; intros a e Ha He Hae Hk.
+  { assert (a = e) by lia. subst. rewrite sub_nil. constructor. }
+  destruct (N.eq_dec a e) as [->|Hne]. { rewrite sub_nil. constructor. }
+  destruct (char_step a e Ha He ltac:(lia)) as (c & n & _ & Hn & Hle & Hb & _ & Hsc & Henc).
+  rewrite (sub_split a (a + n) e) by lia.
+  assert (E : sub text a (a + n) = encode_utf8 c).
+  { unfold sub. replace (a + n - a) with n by lia. exact Henc. }
+  rewrite E. constructor; auto. apply IHk; auto. lia.
+Qed.
+
+Lemma Valid_sub' a e : Boundary a -> Boundary e -> a <= e -> Valid (sub text a e).
+Proof. intros. eapply Valid_sub; eauto. Qed.
 
 End Valid.
